@@ -4,7 +4,7 @@
      par (ser (jdoc_of t)) = Some (jdoc_of t)             for tables t with distinct keys, and
      par (firstn k (ser (jdoc_of t))) = None              for every k < length (every proper prefix),
    validated on CPython by the harness for every generated file at every byte offset. *)
-From CF Require Import Common.Bytes C03.Model C03.ExtModel C03.Fetch C03.Lookup C11.Model C11.Proofs C11.Conc C11.Observers.
+From CF Require Import Common.Bytes C03.Model C03.ExtModel C03.Fetch C03.Lookup C11.Model C11.Proofs C11.Conc C11.Observers C11.Empty.
 Open Scope Z_scope.
 
 (* Crash safety, wrong-table safety and read-only directory, for ALL histories: starting from cache
@@ -175,3 +175,34 @@ Theorem C11_memo_not_invalidated_refuted :
   snd (mrun false ([], None) witness_ops) = [None; None; Some witness_elem; None].
 Proof. exact memo_not_invalidated_refuted. Qed.
 Print Assumptions C11_memo_not_invalidated_refuted.
+
+(* The empty table under checksum collisions (model C11/Empty.v).  `{}` has no element and so no class: the class
+   check is vacuous on it.  HEAD's rule — non-empty AND all elements of the expected class — gives, for EVERY
+   collision (table of class c' downloaded from ANY device entries, stored, loaded by a fetcher of class c): a hit
+   exactly when c = c' and the table is not empty, and then exactly that table; `{}` is a miss for both classes. *)
+Theorem C11_collision_rule : forall c c' items,
+  cache_hit c (Some (reload (spec_toc c' items))) =
+  if cls_eqb c c' && match items with [] => false | _ => true end then Some (spec_toc c' items) else None.
+Proof. exact collision_rule. Qed.
+Print Assumptions C11_collision_rule.
+
+Theorem C11_empty_cached_is_miss : forall c, cache_hit c (Some []) = None.
+Proof. exact empty_cached_is_miss. Qed.
+Print Assumptions C11_empty_cached_is_miss.
+
+(* that miss is free when the device table really is empty: the "download" is the INFO request alone *)
+Theorem C11_empty_table_download_is_one_request : forall c cache ver crc extra evs,
+  0 <= crc < 2 ^ 32 -> admissible evs ->
+  let '(s, o) := fetch c cache ver (mkDev [] crc extra) evs in
+  finished_count o = 1%nat -> cache_hit c (cache crc) = None ->
+  f_toc s = [] /\ sends o = [info_req (4 <=? ver)] /\ inserts o = [(crc, [])].
+Proof. exact empty_table_download_is_one_request. Qed.
+Print Assumptions C11_empty_table_download_is_one_request.
+
+(* refutation of the rule that accepts the empty table: the same `{}` passes for both classes, and for any device
+   whose table of that class is not empty the accepted table is wrong *)
+Theorem C11_accept_empty_refuted :
+  (cache_hit_accept_empty LogCls (Some []) = Some [] /\ cache_hit_accept_empty ParamCls (Some []) = Some []) /\
+  forall c items, items <> [] -> exists t, cache_hit_accept_empty c (Some []) = Some t /\ t <> spec_toc c items.
+Proof. split; [exact empty_passes_for_both_classes|exact accept_empty_refuted]. Qed.
+Print Assumptions C11_accept_empty_refuted.
